@@ -340,6 +340,38 @@ fn hostile_name(r: &mut Rng, under: &Labels) -> Labels {
     n
 }
 
+/// An EDNS(0) OPT pseudo-record as real mDNS peers append it (RFC 6891; Apple's owner option):
+/// root owner, CLASS = UDP payload size, TTL = extended RCODE / version / flags. The hostile
+/// variants put it under the watched service, repeat it, or let an option length overrun.
+fn opt_rec(r: &mut Rng, hostile: bool, svc: &Labels) -> Rec {
+    let mut rdata = Vec::new();
+    for _ in 0..r.usize_below(3) {
+        let code = *r.pick(&[4u16, 10, 12, 65001]);
+        let n = r.usize_below(20);
+        rdata.extend_from_slice(&code.to_be_bytes());
+        rdata.extend_from_slice(&(n as u16).to_be_bytes());
+        rdata.extend(r.bytes(n));
+    }
+    let mut owner: Labels = Vec::new();
+    let mut ttl = *r.pick(&[0u32, 0x0000_8000, 0x0100_0000, 0x0001_0000]);
+    if hostile {
+        match r.below(4) {
+            0 => {
+                // option length runs past RDLENGTH
+                rdata.extend_from_slice(&[0, 4, 0, 200, 1, 2, 3]);
+            }
+            1 => {
+                owner = vec![b"opt".to_vec()];
+                owner.extend(svc.iter().cloned());
+            }
+            2 => ttl = r.next_u64() as u32,
+            _ => rdata.truncate(rdata.len().saturating_sub(1 + r.usize_below(3))),
+        }
+    }
+    let size = *r.pick(&[0u16, 512, 1440, 4096, 0xffff]);
+    Rec { owner, rtype: t::OPT, class: size & 0x7fff, cache_flush: size & 0x8000 != 0, ttl, fields: vec![F::Bytes(rdata)] }
+}
+
 fn garbage(r: &mut Rng) -> Vec<u8> {
     match r.below(8) {
         0 => vec![],
@@ -544,7 +576,11 @@ pub fn generate(seed: u64, focus: &str, profile: Profile) -> Scenario {
                 if hostile && r.chance(1, 3) {
                     names.push(hostile_name(&mut r, &name_from_str(services[0])));
                 }
-                let m = query_for(&mut r, qid, &names);
+                let mut m = query_for(&mut r, qid, &names);
+                if r.chance(1, 6) {
+                    let o = opt_rec(&mut r, hostile, &name_from_str(services[0]));
+                    m.additional.push(o);
+                }
                 AppOp::SendMsg { msg: m, compress: r.chance(1, 2), unicast_to, exact: !hostile }
             } else {
                 // a response: announcements of invented instances, foreign services, hostile names
@@ -644,6 +680,16 @@ pub fn generate(seed: u64, focus: &str, profile: Profile) -> Scenario {
                             m.additional.push(rec);
                         } else {
                             m.answers.push(rec);
+                        }
+                    }
+                }
+                if r.chance(1, 6) {
+                    for _ in 0..if hostile { 1 + r.usize_below(2) } else { 1 } {
+                        let o = opt_rec(&mut r, hostile, &svc);
+                        if hostile && r.chance(1, 4) {
+                            m.answers.push(o);
+                        } else {
+                            m.additional.push(o);
                         }
                     }
                 }
